@@ -19,8 +19,9 @@
 (*   mainchain/tx_pool/tx_pool_utils.go IntrinsicGas -> the field tx.intr    *)
 (*     (taken from the real function, see below)                            *)
 (*   mainchain/blockchain/block_operations.go  commitBlock                   *)
-(*                            -> LoopStep (one iteration of the transaction  *)
-(*                               loop), RejectTx, CommitBlock                *)
+(*                            -> one iteration of the transaction loop =     *)
+(*                               ApplyTx or RejectTx; Executed (the block)   *)
+(*   state_processor.go  StateProcessor.Process -> FirstRefused              *)
 (*                                                                         *)
 (* Style: functional.  A world is a record, every operator returns a record *)
 (* with the new world and the observable results, so that the same           *)
@@ -306,6 +307,20 @@ RejectTx(w, tx) ==
 
 \* what ApplyTransaction itself may leave in the pool when it returns an error (callee's contract)
 RawPoolAfterError(w, tx) == IF Late(Class(w, tx)) THEN {w.pool, w.pool - tx.gas} ELSE {w.pool}
+
+(***************************************************************************)
+(* The two loops around ApplyTransaction in terms of the fate of every       *)
+(* transaction of a block (fate[j] = <<k, class>>, in block order):          *)
+(*   BlockOperations.commitBlock : a refused transaction is skipped          *)
+(*     (RejectTx), every other one is executed; receipts and the block's     *)
+(*     gas used are those of the executed ones                               *)
+(*   StateProcessor.Process (re-execution of a stored block): the first      *)
+(*     refused transaction makes the whole block invalid                     *)
+(***************************************************************************)
+Executed(fate) == {fate[j][1] : j \in {m \in 1..Len(fate) : fate[m][2] = "exec"}}
+FirstRefused(fate) ==
+  IF \A j \in 1..Len(fate) : fate[j][2] = "exec" THEN 0
+  ELSE CHOOSE j \in 1..Len(fate) : fate[j][2] # "exec" /\ \A m \in 1..(j - 1) : fate[m][2] = "exec"
 
 (***************************************************************************)
 (* The statement of C09, as predicates over one loop iteration:             *)
